@@ -38,12 +38,14 @@ public:
             idx_ = 0;
         }
         while (phase_ == 2) {                       // smaller element values
+            // halving / low byte only: decrementing uniform 32-bit values would take 2^32 steps
             if (idx_ >= 2 * n) { phase_ = 3; break; }
             size_t i = idx_ / 2; bool half = (idx_ % 2) == 0;
             idx_++;
             if (base_[i] <= 1) continue;
+            if (!half && base_[i] < 256) continue;
             std::vector<uint32_t> v = base_;
-            v[i] = half ? base_[i] / 2 : base_[i] - 1;
+            v[i] = half ? base_[i] / 2 : (base_[i] & 0xffu);
             return v;
         }
         return rc::Nothing;
@@ -83,8 +85,10 @@ void runRandom(const Opt &o, Ev &ev, const std::string &sub, int maxChoices, int
     std::string lastMsg;
     bool any = false;
     auto gen = choiceGen(maxChoices);
+    long shrinkBudget = 30000;   // property executions spent on shrinking; afterwards candidates are declined
     auto prop = [&]() {
         std::vector<uint32_t> v = *gen;
+        if (any && --shrinkBudget < 0) return;
         armCase(choicesText(sub, v));
         Src s(v);
         std::string m = body(s, ev);
